@@ -11,3 +11,5 @@ import RelicVerif.Props.C18
 import RelicVerif.Props.C20
 import RelicVerif.Props.C08
 import RelicVerif.Props.C11
+import RelicVerif.Props.C12
+import RelicVerif.Props.C04
